@@ -123,9 +123,15 @@ def check_z3_translator(repo: Repo, rep: Report) -> None:
         for n in ars:
             lo, hi = spec["arity"]
             if n < lo or (hi is not None and n > hi):
-                rep.finding("OPC-2", by[op][0].file, by[op][0].func, f"Op.{op} arity {n}",
-                            f"a construction site can build Op.{op} with {n} operands, outside the operator's arity",
-                            by[op][0].node.lineno)
+                site = next((x for x in by[op] if (x.arity_lo or 0) <= n and (x.arity_hi is None or n <= x.arity_hi)), by[op][0])
+                if site.arity_hi is None:
+                    # an n-ary site whose length guard was not found: "not proved", not "refuted" (OPC-7 evaluates the empty forms
+                    # of the aggregate helpers and is the rule that can witness an ill-formed 0-ary tree)
+                    rep.undecide("OPC-2", f"{site.file}::{site.func}: no dominating guard bounds the length of `{norm(site.operands)}` "
+                                          f"(Op.{op} with {n} operands would be outside the operator's arity)")
+                else:
+                    rep.finding("OPC-2", site.file, site.func, f"Op.{op} arity {n}",
+                                f"this construction site builds Op.{op} with {n} operands, outside the operator's arity", site.node.lineno)
                 continue
             for xs in EM.operand_assignments(op, n):
                 e = Obj([cls, "Expr"], op=Tag("Op." + op), operands=list(xs))
